@@ -26,6 +26,7 @@ def Matches (a : Alarm) (cal : Calendar) (r : Nat) : Prop :=
   | .weekly => WeeklyMatch a.sod a.mask r
   | .oneshot => OneshotMatch a.sod r
   | .workday => WorkdayMatch a.sod cal a.wd r
+  | .cron => Cron.CronMatch a.expr r
 
 /-- the state-machine invariant: the loop timer is armed exactly while the alarm is enabled -/
 def Inv (a : Alarm) : Prop := (a.st = .running ↔ a.timer.isSome = true)
